@@ -149,6 +149,11 @@ def create_header(
         # TODO: This behaviour does not match the docstring.
         reuse_info = existing_spdx | reuse_info
         reuse_info = reuse_info.copy(copyright_lines=spdx_copyrights)
+    elif merge_copyrights:
+        # Write the requested lines the way a later run would merge them.
+        reuse_info = reuse_info.copy(
+            copyright_lines=merge_copyright_lines(reuse_info.copyright_lines)
+        )
 
     new_header += _create_new_header(
         reuse_info,
